@@ -16,11 +16,13 @@ import (
 
 	"github.com/gauss-project/aurorafs/pkg/boson"
 	"github.com/gauss-project/aurorafs/pkg/cac"
+	"github.com/gauss-project/aurorafs/pkg/encryption"
 	"github.com/gauss-project/aurorafs/pkg/file"
 	"github.com/gauss-project/aurorafs/pkg/file/joiner"
 	"github.com/gauss-project/aurorafs/pkg/file/pipeline"
 	"github.com/gauss-project/aurorafs/pkg/file/pipeline/bmt"
 	"github.com/gauss-project/aurorafs/pkg/file/pipeline/builder"
+	penc "github.com/gauss-project/aurorafs/pkg/file/pipeline/encryption"
 	"github.com/gauss-project/aurorafs/pkg/file/pipeline/feeder"
 	"github.com/gauss-project/aurorafs/pkg/file/pipeline/hashtrie"
 	pstore "github.com/gauss-project/aurorafs/pkg/file/pipeline/store"
@@ -196,6 +198,8 @@ const (
 	modeEnc
 	modeSmall
 	modePipe // writes go through file.ChunkPipe and builder.FeedPipeline
+	modeEncSmall
+	modeSynth // synthetic encrypted file served chunk by chunk on demand (reader only)
 )
 
 type Runner struct {
@@ -213,6 +217,104 @@ type Runner struct {
 	j       file.Joiner
 	size    int64
 	pos     int64 // the oracle's own cursor
+	syn     *synthStore
+}
+
+// total is the length of the content; slice its bytes [at, at+n).
+func (rn *Runner) total() int64 {
+	if rn.syn != nil {
+		return rn.syn.size
+	}
+	return int64(len(rn.written))
+}
+
+func (rn *Runner) slice(at, n int64) []byte {
+	if rn.syn != nil {
+		return rn.syn.content(at, n)
+	}
+	return rn.written[at : at+n]
+}
+
+// synthStore serves the canonical encrypted tree of a periodic content of `size` bytes (4096
+// references of 64 bytes per intermediate chunk) without materialising it: addresses
+// keccak("A" ‖ le64 off ‖ le64 span) (the joiner never re-hashes), keys keccak("K" ‖ …), zero padding;
+// a chunk is built from its position when it is requested (own keystream implementation).
+type synthStore struct {
+	pat   []byte
+	size  int64
+	index map[string][2]int64
+}
+
+func le64b(v int64) []byte {
+	var l [8]byte
+	binary.LittleEndian.PutUint64(l[:], uint64(v))
+	return l[:]
+}
+func synthAddr(off, span int64) []byte { return keccak([]byte("A"), le64b(off), le64b(span)) }
+func synthKey(off, span int64) []byte  { return keccak([]byte("K"), le64b(off), le64b(span)) }
+
+func synthKids(span int64) (fl, k int64) {
+	fl = C
+	for fl*4096 < span {
+		fl *= 4096
+	}
+	return fl, (span + fl - 1) / fl
+}
+
+func newSynth(seed uint64, size int64, period int) *synthStore {
+	s := &synthStore{pat: core.GenBytes(seed, period, 0), size: size, index: map[string][2]int64{}}
+	var walk func(off, span int64)
+	walk = func(off, span int64) {
+		s.index[string(synthAddr(off, span))] = [2]int64{off, span}
+		if span <= C {
+			return
+		}
+		fl, k := synthKids(span)
+		for i := int64(0); i < k; i++ {
+			sp := span - i*fl
+			if sp > fl {
+				sp = fl
+			}
+			walk(off+i*fl, sp)
+		}
+	}
+	walk(0, size)
+	return s
+}
+
+func (s *synthStore) content(at, n int64) []byte {
+	out := make([]byte, n)
+	for i := range out {
+		out[i] = s.pat[(at+int64(i))%int64(len(s.pat))]
+	}
+	return out
+}
+
+func (s *synthStore) Get(ctx context.Context, mode storage.ModeGet, a boson.Address) (boson.Chunk, error) {
+	pos, ok := s.index[string(a.Bytes())]
+	if !ok {
+		return nil, storage.ErrNotFound
+	}
+	off, span := pos[0], pos[1]
+	var payload []byte
+	if span <= C {
+		payload = s.content(off, span)
+	} else {
+		fl, k := synthKids(span)
+		for i := int64(0); i < k; i++ {
+			sp := span - i*fl
+			if sp > fl {
+				sp = fl
+			}
+			payload = append(payload, synthAddr(off+i*fl, sp)...)
+			payload = append(payload, synthKey(off+i*fl, sp)...)
+		}
+	}
+	key := synthKey(off, span)
+	data := make([]byte, 8+C) // zero padding
+	copy(data, xorStream(le64b(span), key, uint32(C/64)))
+	copy(data[8:], xorStream(payload, key, 0))
+	return boson.NewChunk(a, data), nil
 }
 
 type pipeResult struct {
@@ -237,9 +339,96 @@ func smallPipeline(ctx context.Context, s storage.Putter, c, b int) pipeline.Int
 	return feeder.NewChunkFeederWriter(c, bmt.NewBmtWriter(lsw))
 }
 
+// smallEncPipeline assembles the writers of builder.newEncryptionPipeline with chunk size c and
+// branching b (references stay 64 bytes, the padding of EncryptChunk stays boson.ChunkSize).
+func smallEncPipeline(ctx context.Context, s storage.Putter, c, b int) pipeline.Interface {
+	short := func() pipeline.ChainWriter {
+		lsw := pstore.NewStoreWriter(ctx, s, storage.ModePutUpload, nil)
+		return penc.NewEncryptionWriter(encryption.NewChunkEncrypter(), bmt.NewBmtWriter(lsw))
+	}
+	tw := hashtrie.NewHashTrieWriter(c, b, boson.HashSize+encryption.KeyLength, short)
+	lsw := pstore.NewStoreWriter(ctx, s, storage.ModePutUpload, tw)
+	e := penc.NewEncryptionWriter(encryption.NewChunkEncrypter(), bmt.NewBmtWriter(lsw))
+	return feeder.NewChunkFeederWriter(c, e)
+}
+
+// segKey is the keystream segment of pkg/encryption (own implementation): H(H(key ‖ le32(ctr))).
+func segKey(key []byte, ctr uint32) []byte {
+	var c [4]byte
+	binary.LittleEndian.PutUint32(c[:], ctr)
+	return keccak(keccak(key, c[:]))
+}
+
+func xorStream(in, key []byte, initCtr uint32) []byte {
+	out := make([]byte, len(in))
+	for i := 0; i < len(in); i += 32 {
+		sk := segKey(key, initCtr+uint32(i/32))
+		for j := 0; j < 32 && i+j < len(in); j++ {
+			out[i+j] = in[i+j] ^ sk[j]
+		}
+	}
+	return out
+}
+
+// walkEnc reads the keys and padding bytes of an encrypted upload back from the references and the
+// stored chunks, top-down from `ref` (the subtree starts at content offset off): one annotation
+// token `<off>:<span>:<key>:<padding>` per chunk.  Model-free clauses on the way: every stored
+// chunk has 8 + ChunkSize bytes, decrypted data chunks are the written bytes.
+func (rn *Runner) walkEnc(ctx *core.Ctx, ref []byte, off int64, c, b int) bool {
+	if len(ref) != 64 {
+		ctx.Fail("enc-ref-length", "encrypted reference has %d bytes", len(ref))
+		return false
+	}
+	addr, key := ref[:32], ref[32:]
+	data, ok := rn.st.m[string(addr)]
+	if !ok {
+		ctx.Fail("enc-chunk-missing", "chunk %x of the encrypted tree was not Put", addr)
+		return false
+	}
+	if len(data) != 8+C {
+		ctx.Fail("enc-chunk-length", "stored encrypted chunk has %d bytes, want %d", len(data), 8+C)
+		return false
+	}
+	span := int64(binary.LittleEndian.Uint64(xorStream(data[:8], key, uint32(C/64))))
+	if span < 0 || off+span > int64(len(rn.written)) {
+		ctx.Fail("enc-span", "chunk at offset %d has span %d, content has %d bytes", off, span, len(rn.written))
+		return false
+	}
+	plen, fl, k := span, int64(c), int64(0)
+	if span > int64(c) {
+		for fl*int64(b) < span {
+			fl *= int64(b)
+		}
+		k = (span + fl - 1) / fl
+		plen = 64 * k
+	}
+	if plen > C {
+		ctx.Fail("enc-span", "chunk at offset %d: span %d needs a payload of %d bytes", off, span, plen)
+		return false
+	}
+	payload := xorStream(data[8:8+plen], key, 0)
+	pad := "-"
+	if int(plen) < C {
+		pad = hex.EncodeToString(data[8+plen:])
+	}
+	ctx.Annotate(fmt.Sprintf("%d:%d:%s:%s", off, span, hex.EncodeToString(key), pad))
+	if k == 0 {
+		if !bytes.Equal(payload, rn.written[off:off+span]) {
+			ctx.Fail("enc-leaf-content", "decrypted data chunk at offset %d differs from the written bytes", off)
+		}
+		return true
+	}
+	for i := int64(0); i < k; i++ {
+		if !rn.walkEnc(ctx, payload[64*i:64*i+64], off+i*fl, c, b) {
+			return false
+		}
+	}
+	return true
+}
+
 func (rn *Runner) params() (int, int) {
 	switch rn.mode {
-	case modeSmall:
+	case modeSmall, modeEncSmall:
 		return rn.sc, rn.sb
 	case modeEnc:
 		return C, boson.Branches / 2
@@ -251,7 +440,7 @@ func (rn *Runner) reset(mode int) {
 	rn.Close()
 	*rn = Runner{Prop: rn.Prop, mode: mode}
 	ctx := context.Background()
-	rn.st = NewStore(mode != modeEnc)
+	rn.st = NewStore(true)
 	switch mode {
 	case modePlain:
 		rn.p = builder.NewPipelineBuilder(ctx, rn.st, storage.ModePutUpload, false)
@@ -328,7 +517,7 @@ func sentinelBuf(ln, cp int) (buf, mem []byte) {
 // checkRead evaluates the reader-contract clauses on one ReadAt/Read result.
 // `at` is the offset the read was served from; kind is "readat" or "read".
 func (rn *Runner) checkRead(ctx *core.Ctx, kind string, at int64, ln, cp, n int, err error, mem []byte) {
-	size := int64(len(rn.written))
+	size := rn.total()
 	want := 0
 	if at < size {
 		want = ln
@@ -359,7 +548,7 @@ func (rn *Runner) checkRead(ctx *core.Ctx, kind string, at int64, ln, cp, n int,
 	if n != want && n <= ln {
 		ctx.Fail(kind+"-count", "returned %d, want min(len, size-off) = %d (off %d len %d size %d)", n, want, at, ln, size)
 	}
-	if n >= 0 && n <= cp && at >= 0 && at+int64(n) <= size && !bytes.Equal(mem[:n], rn.written[at:at+int64(n)]) {
+	if n >= 0 && n <= cp && at >= 0 && at+int64(n) <= size && !bytes.Equal(mem[:n], rn.slice(at, int64(n))) {
 		ctx.Fail(kind+"-content", "bytes differ from content[%d:%d]", at, at+int64(n))
 	}
 }
@@ -392,6 +581,28 @@ func (rn *Runner) Step(ctx *core.Ctx, op []string) string {
 		rn.reset(modeSmall)
 		rn.sc, rn.sb = c, b
 		rn.p = smallPipeline(context.Background(), rn.st, c, b)
+		return "ok"
+	case len(op) == 5 && op[0] == "new" && op[1] == "synth":
+		seed, e1 := strconv.ParseUint(op[2], 10, 64)
+		size, e2 := strconv.ParseInt(op[3], 10, 64)
+		period, ok3 := atoi(op[4])
+		if e1 != nil || e2 != nil || !ok3 || size < 0 || period <= 0 || period > C || size > 16*int64(C)*4096 {
+			return "bad-op"
+		}
+		rn.reset(modeSynth)
+		rn.syn = newSynth(seed, size, period)
+		rn.summed = true
+		rn.root = append(synthAddr(0, size), synthKey(0, size)...)
+		return "ok"
+	case len(op) == 4 && op[0] == "new" && op[1] == "encsmall":
+		c, ok1 := atoi(op[2])
+		b, ok2 := atoi(op[3])
+		if !ok1 || !ok2 || c <= 0 || c > C || b < 2 || 64*b > C {
+			return "bad-op"
+		}
+		rn.reset(modeEncSmall)
+		rn.sc, rn.sb = c, b
+		rn.p = smallEncPipeline(context.Background(), rn.st, c, b)
 		return "ok"
 	case len(op) == 2 && op[0] == "selftest":
 		d, ok := core.ParseSrc(op[1])
@@ -476,14 +687,13 @@ func (rn *Runner) Step(ctx *core.Ctx, op []string) string {
 		}
 		rn.root = append([]byte(nil), sum...)
 		c, b := rn.params()
-		if rn.mode == modeEnc {
-			if len(sum) != 64 {
-				ctx.Fail("enc-ref-length", "encrypted reference has %d bytes", len(sum))
-			}
-			return fmt.Sprintf("ok enc %d", rn.st.NPuts)
-		}
 		if rn.st.Bad > 0 {
 			ctx.Fail("put-invalid-chunk", "%d stored chunks fail cac.Valid", rn.st.Bad)
+		}
+		if rn.mode == modeEnc || rn.mode == modeEncSmall {
+			// the random keys / padding bytes, read back for the model
+			rn.walkEnc(ctx, sum, 0, c, b)
+			return fmt.Sprintf("ok %s %d %016x", hex.EncodeToString(sum), rn.st.NPuts, rn.st.Dig)
 		}
 		if rn.Prop == "C02" {
 			// model-free: the reference is the format's tree hash of the bytes …
@@ -500,17 +710,21 @@ func (rn *Runner) Step(ctx *core.Ctx, op []string) string {
 		if rn.root == nil {
 			return "nosum"
 		}
-		if rn.mode == modeSmall {
+		if rn.mode == modeSmall || rn.mode == modeEncSmall {
 			return "nojoin"
 		}
-		j, size, err := joiner.New(context.Background(), rn.st, storage.ModeGetRequest, boson.NewAddress(rn.root))
+		var getter storage.Getter = rn.st
+		if rn.syn != nil {
+			getter = rn.syn
+		}
+		j, size, err := joiner.New(context.Background(), getter, storage.ModeGetRequest, boson.NewAddress(rn.root))
 		if err != nil {
 			ctx.Fail("open-error", "%v", err)
 			return "err"
 		}
 		rn.j, rn.size, rn.pos = j, size, 0
-		if size != int64(len(rn.written)) {
-			ctx.Fail("size-mismatch", "joiner.New reports %d, content has %d bytes", size, len(rn.written))
+		if size != rn.total() {
+			ctx.Fail("size-mismatch", "joiner.New reports %d, content has %d bytes", size, rn.total())
 		}
 		return fmt.Sprintf("ok %d", size)
 	}
@@ -520,8 +734,8 @@ func (rn *Runner) Step(ctx *core.Ctx, op []string) string {
 	switch {
 	case len(op) == 1 && op[0] == "size":
 		s := rn.j.Size()
-		if s != int64(len(rn.written)) {
-			ctx.Fail("size-mismatch", "Size() = %d, content has %d bytes", s, len(rn.written))
+		if s != rn.total() {
+			ctx.Fail("size-mismatch", "Size() = %d, content has %d bytes", s, rn.total())
 		}
 		return strconv.FormatInt(s, 10)
 	case len(op) == 4 && op[0] == "readat":
@@ -556,7 +770,7 @@ func (rn *Runner) Step(ctx *core.Ctx, op []string) string {
 			return "bad-op"
 		}
 		p, err := rn.j.Seek(off, wh)
-		size := int64(len(rn.written))
+		size := rn.total()
 		var target int64
 		valid := true
 		switch wh {
@@ -593,6 +807,8 @@ func (rn *Runner) Step(ctx *core.Ctx, op []string) string {
 			return "erroffset"
 		}
 		return "err"
+	case len(op) == 1 && op[0] == "readall" && rn.mode == modeSynth:
+		return "noreadall"
 	case len(op) == 1 && op[0] == "readall":
 		var out bytes.Buffer
 		n, err := file.JoinReadAll(context.Background(), rn.j, &out)
